@@ -118,7 +118,7 @@ func (tg *TCPGroup) Listen(proxyName string, group string, groupKey string, addr
 		if tg.acceptCh == nil {
 			tg.acceptCh = make(chan net.Conn)
 		}
-		go tg.worker()
+		go tg.worker(tcpLn, tg.acceptCh)
 	} else {
 		// address and port in the same group must be equal
 		if tg.group != group || tg.addr != addr {
@@ -141,14 +141,14 @@ func (tg *TCPGroup) Listen(proxyName string, group string, groupKey string, addr
 }
 
 // worker is called when the real tcp listener has been created
-func (tg *TCPGroup) worker() {
+func (tg *TCPGroup) worker(realLn net.Listener, acceptCh chan<- net.Conn) {
 	for {
-		c, err := tg.tcpLn.Accept()
+		c, err := realLn.Accept()
 		if err != nil {
 			return
 		}
 		err = gerr.PanicToError(func() {
-			tg.acceptCh <- c
+			acceptCh <- c
 		})
 		if err != nil {
 			c.Close()
